@@ -11,6 +11,9 @@ import (
 
 	"github.com/np-guard/netpol-analyzer/pkg/netpol/connlist"
 
+	"verif/checks/c01"
+	"verif/checks/c10"
+	"verif/checks/expo"
 	"verif/fw"
 	"verif/wm"
 )
@@ -66,15 +69,16 @@ func baseWorlds() []*wm.World {
 }
 
 type Case struct {
-	Order  int // 0: workloads first, 1: workloads last, 2: the re-expressed workload last, 3: reversed workloads first
-	Base   *wm.World
-	WI     int
-	Kind   string
-	Repl   int
-	Kinds  []string // all workloads re-expressed at once (nil = only WI)
-	Repls  []int
-	Desc   string
-	Shadow *shadowCase
+	Borrowed bool // world of another check's scope: the other workloads keep their own kind and replicas
+	Order    int  // 0: workloads first, 1: workloads last, 2: the re-expressed workload last, 3: reversed workloads first
+	Base     *wm.World
+	WI       int
+	Kind     string
+	Repl     int
+	Kinds    []string // all workloads re-expressed at once (nil = only WI)
+	Repls    []int
+	Desc     string
+	Shadow   *shadowCase
 }
 
 type shadowItem struct {
@@ -120,6 +124,10 @@ func eval(cs Case, x *fw.Rec) {
 	base := cs.Base
 	baseRes, _ := wm.RunList(base.Infos(), false)
 	if baseRes.Err != nil {
+		if cs.Borrowed && strings.Contains(baseRes.Err.Error(), "cannot convert named port for an IP destination") {
+			x.Count("skipped_documented_named_port_error", 1)
+			return
+		}
 		x.Fail("harness: base world does not list", "", baseRes.Err.Error())
 		return
 	}
@@ -129,6 +137,9 @@ func eval(cs Case, x *fw.Rec) {
 	var wantPeers []string
 	for i, wl := range base.WLs {
 		k, rp := "Deployment", 1
+		if cs.Borrowed {
+			k, rp = wl.Kind, wl.Replicas
+		}
 		if cs.Kinds != nil {
 			k, rp = cs.Kinds[i], cs.Repls[i]
 		} else if i == cs.WI {
@@ -152,6 +163,9 @@ func eval(cs Case, x *fw.Rec) {
 		var first, last []*resource.Info
 		for i, wl := range base.WLs {
 			k, rp := "Deployment", 1
+			if cs.Borrowed {
+				k, rp = wl.Kind, wl.Replicas
+			}
 			if cs.Kinds != nil {
 				k, rp = cs.Kinds[i], cs.Repls[i]
 			} else if i == cs.WI {
@@ -370,6 +384,41 @@ func Run(r *fw.Run) {
 		ord := []int{0, 1, 3}[c.Choose(3, "document order")]
 		return Case{Base: bases[bi], Kinds: ks, Repls: rs, Order: ord, WI: -1, Desc: fmt.Sprintf("base=%d kinds=%v replicas=%v order=%d", bi, ks, rs, ord)}
 	}, eval)
+	// worlds of the other alphabets (NetworkPolicy shapes, exposure selectors, Service / Ingress / Route): each of their
+	// workloads re-expressed as every kind; the thorough tier takes far more of them
+	type src struct {
+		name   string
+		gen    func(*fw.Ctx) *wm.World
+		stride int
+	}
+	var srcs []src
+	for _, sc := range c01.Scopes(true) {
+		if sc.Name == "S-sel-ip" || sc.Name == "S-ports" || sc.Name == "S-twins" {
+			srcs = append(srcs, src{"borrowed/c01-" + sc.Name, sc.Gen, map[string]int{"S-sel-ip": 800, "S-ports": 300, "S-twins": 400}[sc.Name]})
+		}
+	}
+	for _, sc := range expo.Scopes(true) {
+		srcs = append(srcs, src{"borrowed/expo-" + sc.Name, sc.Gen, map[string]int{"shared-policy": 60, "one-policy/two-rules": 3000, "two-policies": 9000}[sc.Name]})
+	}
+	srcs = append(srcs, src{"borrowed/c10-ingress", c10.GenIngress, 20000}, src{"borrowed/c10-route", c10.GenRoute, 30000})
+	for _, sc := range srcs {
+		sc := sc
+		st := sc.stride
+		if !r.Quick() {
+			st = (st + 39) / 40
+		}
+		fw.Explore(r, sc.name, fw.Full, func(c *fw.Ctx) Case {
+			w := sc.gen(c)
+			c.Stride(st)
+			wi := c.Choose(len(w.WLs), "workload")
+			k := fw.Pick(c, wm.ExpressKinds, "kind")
+			rp := fw.Pick(c, []int{-1, 2}, "replicas")
+			if w.WLs[wi].Kind == k && rp == w.WLs[wi].Replicas {
+				c.Skip()
+			}
+			return Case{Base: w, WI: wi, Kind: k, Repl: rp, Order: wi % 4, Borrowed: true, Desc: fmt.Sprintf("%s workload=%s as %s replicas=%d", sc.name, w.WLs[wi].PeerString(), k, rp)}
+		}, eval)
+	}
 	items := []shadowItem{{"Deployment", "a", 1}, {"StatefulSet", "a", 1}, {"PodBare", "a-1", 1}, {"Deployment", "a-1", 1}, {"Pods", "a", 1}, {"Job", "a", 1}, {"CronJob", "a", 1}, {"DaemonSet", "a", 1}, {"PodBare", "a-pod0", 1}, {"ReplicaSet", "a", 1}}
 	fw.Explore(r, "distinct-workloads", fw.Full, func(c *fw.Ctx) Case {
 		i := c.Choose(len(items), "first")
